@@ -261,7 +261,10 @@ impl H1 {
                 let head = String::from_utf8_lossy(&self.buf[..end]).to_string();
                 self.buf.drain(..end + 4);
                 let mut lines = head.split("\r\n");
-                let status = lines.next().unwrap_or("").split(' ').nth(1).and_then(|s| s.parse().ok()).unwrap_or(0);
+                // status-line = HTTP-version SP 3DIGIT SP [ reason-phrase ] (RFC 9112 4): anything else reads as status 0
+                let sl = lines.next().unwrap_or("").as_bytes().to_vec();
+                let well_formed = sl.len() >= 13 && (sl.starts_with(b"HTTP/1.1 ") || sl.starts_with(b"HTTP/1.0 ")) && sl[9..12].iter().all(|b| b.is_ascii_digit()) && sl[12] == b' ';
+                let status = if well_formed { std::str::from_utf8(&sl[9..12]).ok().and_then(|s| s.parse().ok()).unwrap_or(0) } else { 0 };
                 let headers = lines.filter_map(|l| l.split_once(':').map(|(n, v)| (n.trim().to_ascii_lowercase(), v.trim().to_string()))).collect();
                 return Head::Got(status, headers);
             }
@@ -588,7 +591,16 @@ struct OriginLog {
     client_eof: bool,
 }
 
+/// status the origin answers a plain request with; rotated by the caller over a registered code and codes
+/// without a registered reason phrase (the proxy re-encodes the status line: `HTTP/1.1 SP code SP [reason]`)
+static ORIGIN_STATUS: std::sync::atomic::AtomicUsize = std::sync::atomic::AtomicUsize::new(200);
+const ORIGIN_STATUSES: &[usize] = &[200, 520, 200, 299, 200, 444];
+
 fn origin_response_head(upgrade: bool) -> Vec<u8> {
+    let st = ORIGIN_STATUS.load(std::sync::atomic::Ordering::SeqCst);
+    if !upgrade && st != 200 {
+        return format!("HTTP/1.1 {} Whatever The Origin Says\r\nContent-Type: application/x-c18\r\nX-Origin: c18\r\nSet-Cookie: origin=c18-SECRET-set-cookie\r\n\r\n", st).into_bytes();
+    }
     if upgrade {
         b"HTTP/1.1 101 Switching Protocols\r\nUpgrade: websocket\r\nConnection: Upgrade\r\nSec-WebSocket-Accept: c18-accept\r\nSet-Cookie: origin=c18-SECRET-set-cookie\r\n\r\n".to_vec()
     } else {
@@ -874,7 +886,7 @@ fn judge_rp(rep: &mut Report, v: &Vector, r: &RpResult, sig_base: &str) {
     let upgrade = v.has_header("upgrade");
     let oh = origin_response_head(upgrade);
     let (_, mut oheaders, _) = parse_request_head(&oh).unwrap();
-    let ostatus: u16 = if upgrade { 101 } else { 200 };
+    let ostatus: u16 = if upgrade { 101 } else { ORIGIN_STATUS.load(std::sync::atomic::Ordering::SeqCst) as u16 };
     let mut ch = r.obs.headers.clone();
     oheaders.sort();
     ch.sort();
@@ -1256,6 +1268,8 @@ fn main() {
                 };
                 let cut = ORIGIN_CUTS[(rep.counters.get("rp_runs_total").cloned().unwrap_or(0) as usize) % ORIGIN_CUTS.len()];
                 ORIGIN_CUT.store(cut, std::sync::atomic::Ordering::SeqCst);
+                let n_rp = rep.counters.get("rp_runs_total").cloned().unwrap_or(0) as usize;
+                ORIGIN_STATUS.store(ORIGIN_STATUSES[(n_rp / ORIGIN_CUTS.len()) % ORIGIN_STATUSES.len()], std::sync::atomic::Ordering::SeqCst);
                 rep.count("rp_runs_total", 1);
                 rep.count(&format!("rp_origin_head_cut_{}", cut), 1);
                 let res = catch(|| rt_real.block_on(run_with_origin(&v, ip)));
